@@ -106,7 +106,7 @@ def derive(rng, d, depth, clash_dict_over_leaf, stats):
             if r < 0.55:
                 u[k] = rleaf(rng)                               # user leaf over default leaf
             elif r < 0.70 and clash_dict_over_leaf:
-                u[k] = rtree(rng, max(1, depth - 1))            # user dict over default leaf (D11)
+                u[k] = rtree(rng, max(1, depth - 1))            # user dict over default leaf (D11 before e564612)
                 stats["dict_over_leaf"] = stats.get("dict_over_leaf", 0) + 1
             else:
                 u[k] = copy.deepcopy(v)
@@ -340,9 +340,8 @@ def run(ctx):
         "translator and not generated",
     ]
     ctx.assumptions += [
-        "json trees have distinct keys in every dict (executable predicate wf; true of every Python dict)",
-        "merge_spec / idempotence / identities assume the executable no-clash predicate (no user dict over a non-dict "
-        "default); without it update_config raises (merge_total_refuted, D11)",
+        "merge theorems hold for every pair of dicts and every enumeration order of the key set (no side condition); "
+        "a non-dict ARGUMENT of update_config is outside the property (AttributeError, modelled by None)",
     ]
     ctx.partial += [
         "inputs left unmodified: functional model makes it trivial in Coq; for the implementation it is measured by "
@@ -446,14 +445,14 @@ def run(ctx):
                  input=dict(user=jd(u), default=jd(d)), expected=jd(r), observed=jd(r2) if err2 is None else err2)
 
     fixed = [
-        ({"a": {"b": 1}}, {"a": 2}, "D11-witness"),
+        ({"a": {"b": 1}}, {"a": 2}, "dict-over-leaf (former D11 witness)"),
         ({}, {}, "edge"), ({}, {"a": 1, "b": {"c": 2}}, "edge"), ({"a": 1, "b": {"c": 2}}, {}, "edge"),
         ({"a": 5}, {"a": {"b": 1}}, "leaf-over-dict"), ({"a": {}}, {"a": {"b": 1}}, "edge"),
         ({"a": {"b": 1}}, {"a": {}}, "edge"), ({"a": None}, {"a": 1}, "edge"), ({"a": [1]}, {"a": [2, 3]}, "edge"),
         ({"a": {"b": {"c": {"d": 1}}}}, {"a": {"b": {"c": {"d": 2, "e": 3}, "f": 4}, "g": 5}, "h": 6}, "deep"),
-        ({"a": {"b": {"c": {"d": {"x": 1}}}}}, {"a": {"b": {"c": {"d": 2}}}}, "D11-deep"),
-        ({"a": False}, {"a": 0}, "edge"), ({"a": 1}, {"a": 1.0}, "edge"), ({"a": {"b": 1}}, {"a": None}, "D11-none"),
-        ({"a": {"b": 1}}, {"a": [1]}, "D11-list"), ({"a": {}}, {"a": "s"}, "D11-empty-dict"),
+        ({"a": {"b": {"c": {"d": {"x": 1}}}}}, {"a": {"b": {"c": {"d": 2}}}}, "dict-over-leaf-deep"),
+        ({"a": False}, {"a": 0}, "edge"), ({"a": 1}, {"a": 1.0}, "edge"), ({"a": {"b": 1}}, {"a": None}, "dict-over-none"),
+        ({"a": {"b": 1}}, {"a": [1]}, "dict-over-list"), ({"a": {}}, {"a": "s"}, "empty-dict-over-leaf"),
     ]
     for u, d, tag in fixed:
         merge_and_judge(u, d, tag)
@@ -468,8 +467,8 @@ def run(ctx):
             u = rtree(rng, rng.choice([1, 2, 3, 4]))
             tag = "independent"
         else:
-            u = derive(rng, d, 4, clash_dict_over_leaf=(mode == 3), stats=stats)
-            tag = "derived-with-clashes" if mode == 3 else "derived"
+            u = derive(rng, d, 4, clash_dict_over_leaf=(mode >= 2), stats=stats)
+            tag = "derived-with-dict-over-leaf" if mode >= 2 else "derived"
         merge_and_judge(u, d, tag)
     for k, v in stats.items():
         ctx.count("merge-feature:" + k, v)
@@ -563,15 +562,15 @@ def run(ctx):
     for e in examples:
         add_apply(copy.deepcopy(e), "example")
     add_apply(copy.deepcopy(full), "full")
-    add_apply({"qha": {}, "elast": {}, "output": {"pressure_base": {"cij": True}}}, "D11-valid-config")
-    add_apply({"qha": {"settings": {"static_only": {"x": 1}}}, "elast": {}}, "D11-valid-config")
+    add_apply({"qha": {}, "elast": {}, "output": {"pressure_base": {"cij": True}}}, "dict-over-leaf-valid-config (former D11 witness)")
+    add_apply({"qha": {"settings": {"static_only": {"x": 1}}}, "elast": {}}, "dict-over-leaf-valid-config (former D11 witness)")
     add_apply({"qha": 5, "elast": None}, "leaf-over-dict")
     for i in range(300 if thorough else 30):
         if i % 3 == 2:
             u = rtree(rng, 3)
             tag = "random-tree"
         else:
-            u = derive(rng, defaults, 4, clash_dict_over_leaf=(i % 6 == 0), stats={})
+            u = derive(rng, defaults, 4, clash_dict_over_leaf=(i % 3 == 0), stats={})
             tag = "derived-from-defaults"
         add_apply(u, tag)
 
@@ -725,7 +724,7 @@ def run(ctx):
             txt.append("Eval vm_compute in (failingj (fun c => let '(u, d, o) := c in "
                        "ojeqb (update_config (fun l => rev (dedup l)) u d) o) cases).")
             txt.append("Eval vm_compute in (failingj (fun c => let '(u, d, o) := c in "
-                       "Bool.eqb (no_clash u d) (match o with Some _ => true | None => false end)) cases).")
+                       "Bool.eqb (is_obj u && is_obj d) (match o with Some _ => true | None => false end)) cases).")
             shards.append((write(rd / ("cases_merge_%d.v" % ci), "\n".join(txt)), "merge", ci))
         for ci, ch in enumerate(chunks(apply_cases)):
             txt = [HEADER, "Definition cases : list (json * option json) := ["]
